@@ -116,6 +116,11 @@ def build(rng, s, target, label, lit, vardefs, variables):
     if s.is_composite(named_of(f.type)):
         sel.selset = [docgen.FieldSel("__typename")]
     sib = docgen.FieldSel("__typename", alias="sib")
+    vardefs = list(vardefs)
+    if "z_" in variables:
+        # an unrelated, supplied variable: the variables object is not empty even when the nested one is absent
+        vardefs.append(("z_", NN(N("Boolean")), NODEF))
+        sib.directives = [("include", [("if", ("var", "z_"))])]
     doc.ops.append(docgen.Op("query", None, [sel, sib] if rng.random() < 0.5 else [sib, sel], list(vardefs)))
     doc.order = [("op", 0)]
     docgen.print_doc(doc, rng, {"multiline": False, "nl": "\n", "shorthand": True})
@@ -138,6 +143,8 @@ async def run_target(ctx, rng, s, b, target, v):
     observed = []
     wseed = rng.randrange(10 ** 9)
     for label, lit, vardefs, variables in spellings(rng, s, a, v):
+        if rng.random() < 0.5:
+            variables = dict(variables, z_=True)
         doc = build(rng, s, target, label, lit, vardefs, variables)
         req = X.Request(doc, doc.text, doc.ops[0], variables, wseed, use_root=False, pass_opname=False)
         case = dict(req.describe(), sdl=b.sdl, spelling=label, target="%s %s.%s" % (kind, f.name, a.name))
@@ -270,6 +277,69 @@ async def run_null_into_nonnull(ctx, rng, s, b, target):
         ctx.violation("null-for-nonnull-without-error", X.jdump(resp)[:300], case)
 
 
+def nested_nonnull_site(rng, s, t):
+    """(literal with $x at a NON-NULL nested position, type of that position) or None."""
+    tt = t[1] if t[0] == "NN" else t
+    if tt[0] == "L":
+        it = tt[1]
+        if it[0] == "NN":
+            others = [values.plain_to_literal(rng, s, it, values._gen_plain_nn(rng, s, it, 2)) for _ in range(rng.randint(0, 2))]
+            items = others + [("var", "x")]
+            rng.shuffle(items)
+            return ("list", items), it
+        sub = nested_nonnull_site(rng, s, it)
+        if sub:
+            return ("list", [sub[0]]), sub[1]
+        return None
+    td = s.types.get(tt[1])
+    if td is not None and td.kind == "INPUT_OBJECT":
+        req = [f for f in td.fields if is_nn(f.type)]
+        if req:
+            f0 = rng.choice(req)
+            fields = [(f0.name, ("var", "x"))] + [(f.name, values.plain_to_literal(rng, s, f.type, values._gen_plain_nn(rng, s, f.type, 2)))
+                                                  for f in td.fields if f is not f0 and is_nn(f.type) and f.default is NODEF]
+            return ("object", fields), f0.type
+    return None
+
+
+async def run_nested_null_into_nonnull(ctx, rng, s, b, target):
+    """A nullable variable with a default, nested in a list / object literal at a non-null position, carrying an
+    explicit null: that field fails; a literal null at the same place behaves the same."""
+    st = ctx.stats
+    kind, f, a, dd = target[:4]
+    if kind != "field":
+        return
+    site = nested_nonnull_site(rng, s, a.type)
+    if not site:
+        return
+    lit, pt = site
+    d = values.plain_to_literal(rng, s, pt, values._gen_plain_nn(rng, s, pt, 2))
+    variables = {"x": None, "z_": True} if rng.random() < 0.5 else {"x": None}
+    doc = build(rng, s, target, "nested-null-variable", lit, [("x", nullable(pt), d)], variables)
+    req = X.Request(doc, doc.text, doc.ops[0], variables, rng.randrange(10 ** 9), use_root=False, pass_opname=False)
+    case = dict(req.describe(), sdl=b.sdl)
+    w_ref, w_eng = X.make_worlds(s, req)
+    try:
+        ref = X.run_reference(s, req, w_ref)
+        resp, _ = await X.run_engine(b.engine, s, req, w_eng)
+    except refexec.RefBug:
+        return
+    except Exception as e:  # noqa
+        ctx.violation("execute-raised", repr(e), case)
+        return
+    st.inc("evaluations")
+    st.inc("nested-null-variable-into-nonnull")
+    if c06.classify(resp):
+        ctx.violation("valid-spelling-refused", "nested null variable: %s" % (c06.classify(resp),), case)
+        return
+    if any(c_[0] == "%s.%s" % (s.query, f.name) for c_ in w_eng.calls):
+        ctx.violation("null-delivered-for-nonnull-nested-position", "delivered=%s" % [c_[2] for c_ in w_eng.calls][:2], case)
+        return
+    dd_ = X.first_diff(resp.get("data"), ref.data)
+    if dd_:
+        ctx.violation("null-for-nonnull-not-contained", "at %s engine=%s reference=%s" % (list(dd_[0]), X.jdump(dd_[1])[:150], X.jdump(dd_[2])[:150]), case)
+
+
 def json_to_literal(v):
     if v is None:
         return ("null",)
@@ -327,5 +397,6 @@ async def run_case(ctx, rng, index):
             await run_target(ctx, rng, s, b, target, v)
             await run_illtyped(ctx, rng, s, b, target)
             await run_null_into_nonnull(ctx, rng, s, b, target)
+            await run_nested_null_into_nonnull(ctx, rng, s, b, target)
     finally:
         b.dispose()
